@@ -2,7 +2,11 @@
 From Rdest Require Import Base BCodec Consts Url.
 Open Scope N_scope.
 
-Inductive case := CUrl (announce hash own_id : bytes) (total : N) (impl_url impl_target : bytes) (got_reply : bool).
+Inductive case :=
+| CUrl (announce hash own_id : bytes) (total : N) (impl_url impl_target : bytes) (got_reply : bool)
+(* the announces of one run of the real tracker task against a tracker that fails `fails` times first: how many requests
+   the tracker read, and whether all of them carried the same target, info_hash included *)
+| CRetry (fails : N) (seen : N) (same : bool).
 
 Definition opt_eqb (a : option bytes) (b : bytes) : bool := match a with Some x => bytes_eqb x b | None => false end.
 
@@ -26,5 +30,8 @@ Definition code (c : case) : N :=
                && bytes_eqb (request_target announce hash own_id total) impl_target in
       let o := got_reply && oracle announce hash own_id total impl_target in
       (if k then 0 else 1) + (if o then 0 else 2)
+  | CRetry fails seen same =>
+      (* "the HTTP request sent to the tracker": every one of them, the retries after a failure included *)
+      if same then 0 else 2
   end.
 Definition codes (cs : list case) : list N := map code cs.
